@@ -75,6 +75,16 @@ for it in range(N):
         exp.extend("k%d" % j for j in range(len(kids)))
     if list(order) != exp:
         fails.append(dict(clause="strategy-run", observed=repr(order)[:400], expected=repr(exp)[:400]))
+# ---- three levels of strategies: one run of the root runs every strategy of the tree exactly once, parents before children
+for it in range(max(5, N // 40)):
+    del ORDER[:]
+    leaves = [Strategy("l%d" % j, [KidSpy("l%d" % j)]) for j in range(rnd.randint(1, 3))]
+    mid = Strategy("mid", [KidSpy("mid")], children=leaves)
+    side = Strategy("side", [KidSpy("side")])
+    root3 = Strategy("root", [KidSpy("root")], children=[mid, side])
+    root3.run(); evals += 1
+    want3 = ["root", "mid"] + ["l%d" % j for j in range(len(leaves))] + ["side"]
+    if list(ORDER) != want3: fails.append(dict(clause="strategy-run-three-levels-each-node-once", observed=list(ORDER), expected=want3))
 # ---- nested stacks and Or branches: a nested stack is one algo of the enclosing stack (recursive reference semantics)
 def gen(depth, with_or):
     """random algo tree: ('spy', tag, ret, flag) | ('stack', [children]) | ('or', [children]); Or combines results with `|`, so trees that
